@@ -245,6 +245,33 @@ func c02CLI(c *fw.Ctx, cs c02Case, text string, recs []sm.Record, o clidrv.Opts,
 		c.Violation("cli-total", cs, fmt.Sprintf("`klog %s` (exit %d, %s) printed\n%q\nexpected\n%q", strings.Join(args, " "), r.Code, r.Err, r.Stdout, want))
 		return
 	}
+	// the same in klog's own duration notation (no --decimal): Total: 1h30m / Should: 8h! / Diff: -6h30m
+	{
+		var nd []string
+		for _, x := range args {
+			if x != "--decimal" {
+				nd = append(nd, x)
+			}
+		}
+		r2 := clidrv.Run(home, o, append(nd, path)...)
+		vals := map[string]int{}
+		okAll := !r2.Panicked && r2.Code == 0
+		for _, l := range strings.Split(r2.Stdout, "\n") {
+			for _, k := range []string{"Total: ", "Should: ", "Diff: "} {
+				if strings.HasPrefix(l, k) {
+					d, ok := sm.ParseDuration(strings.TrimSuffix(strings.TrimPrefix(l, k), "!"))
+					if !ok {
+						okAll = false
+					}
+					vals[k] = d.Mins
+				}
+			}
+		}
+		if !okAll || len(vals) != 3 || vals["Total: "] != wantTotal || vals["Should: "] != wantShould || vals["Diff: "] != wantTotal-wantShould {
+			c.Violation("cli-total-notation", cs, fmt.Sprintf("`klog %s` (exit %d) printed\n%q\nexpected total %d, should %d, diff %d minutes", strings.Join(nd, " "), r2.Code, r2.Stdout, wantTotal, wantShould, wantTotal-wantShould))
+			return
+		}
+	}
 	// the same records spread over two input files (cut after the first record) evaluate to the same
 	if parts := c02Split(text, recs); parts != nil && !now {
 		// (two directories, the same file name)
